@@ -580,4 +580,273 @@ Section Live.
     destruct (cr_data c); [discriminate|].
     apply live_ccp. eapply live_ext_f; [eapply live_remove_code; eauto|]. intros q. unfold zero. reflexivity.
   Qed.
+
+  (* ---- result classes ---- *)
+  Definition hard (rc : rclass) : Prop := rc = ROk \/ rc = RInternal \/ rc = RPanic \/ rc = RCallback.
+
+  Lemma cnr_rc : forall fuel s x, hard (snd (commit_node_request fuel s x)).
+  Proof.
+    induction fuel as [|fu IH]; intros s x; [right; left; reflexivity|]. cbn [commit_node_request].
+    destruct (aget x (nreqs s)) as [r|]; [|right; left; reflexivity].
+    destruct (resolve_path x) as [[o i]|]; [|right; right; left; reflexivity].
+    destruct (nr_parent r) as [pp|]; [|left; reflexivity].
+    match goal with |- context [aget pp ?m] => destruct (aget pp m) as [q|] end; [|right; left; reflexivity].
+    destruct (Z.eqb (nr_deps q - 1) 0); [apply IH|left; reflexivity].
+  Qed.
+  Lemma ccp_rc : forall parents s, hard (snd (commit_code_parents s parents)).
+  Proof.
+    induction parents as [|pp rest IH]; intros s; cbn [commit_code_parents]; [left; reflexivity|].
+    destruct (aget pp (nreqs s)) as [p|]; [|right; left; reflexivity].
+    destruct (Z.eqb (nr_deps p - 1) 0); [|apply IH].
+    pose proof (cnr_rc (cnr_fuel (set_nreqs s (aput pp (mkNreq (nr_hash p) (nr_data p) (nr_parent p) (nr_deps p - 1) (nr_cb p)) (nreqs s))))
+                       (set_nreqs s (aput pp (mkNreq (nr_hash p) (nr_data p) (nr_parent p) (nr_deps p - 1) (nr_cb p)) (nreqs s))) pp) as R.
+    destruct (commit_node_request _ _ pp) as [s2 rc]. cbn [snd] in R.
+    destruct rc; try exact R; try apply IH; destruct R as [R|[R|[R|R]]]; discriminate R.
+  Qed.
+  Lemma children_loop_hard : forall cl s p hp cb acc, hard (snd (children_loop H s p hp cb cl acc)).
+  Proof.
+    induction cl as [|[cpath cn] rest IH]; intros s p hp cb acc; cbn [children_loop]; [left; reflexivity|].
+    set (cbres := match cb with
+                  | CbNone => (s, ROk)
+                  | CbAccount => match cn with
+                                 | NValue v => if callback_paths_ok cpath then on_account H s cpath v hp p else (s, RPanic)
+                                 | _ => (s, ROk)
+                                 end
+                  end).
+    assert (R : hard (snd cbres)).
+    { unfold cbres. destruct cb; [left; reflexivity|]. destruct cn; try (left; reflexivity).
+      destruct (callback_paths_ok cpath); [|right; right; left; reflexivity].
+      unfold on_account. destruct (dec_account v) as [[sr ch]|]; [|right; right; right; reflexivity].
+      destruct (add_sub_trie H s sr cpath hp p CbNone); [right; right; left; reflexivity|].
+      destruct (add_code_entry H s0 (bytes_to_hash ch) cpath hp p); [right; right; left; reflexivity|left; reflexivity]. }
+    destruct cbres as [s1 rc]. cbn [snd] in R.
+    destruct rc; try (cbn [snd]; exact R).
+    destruct cn; try apply IH.
+    destruct (resolve_path cpath) as [[owner inner]|]; [|right; right; left; reflexivity].
+    destruct (has_node H s1 owner inner h) as [ex inc]. destruct ex; apply IH.
+  Qed.
+
+  Lemma process_node_soft s path data :
+    ~ hard (snd (process_node H s path data)) -> fst (process_node H s path data) = s.
+  Proof.
+    unfold process_node. destruct (aget path (nreqs s)) as [r|]; [|reflexivity].
+    destruct (nr_data r); [reflexivity|]. destruct (decode_node data) as [n|]; [|reflexivity].
+    intros Hn. exfalso. apply Hn. clear Hn.
+    unfold children. destruct (child_list path n) as [cl|]; [|right; right; left; reflexivity].
+    match goal with |- context [match ?o with Some s1 => _ | None => _ end] => destruct o as [s1'|] end;
+      [|right; right; left; reflexivity].
+    pose proof (children_loop_hard cl s1' path (nr_hash r) (nr_cb r) []) as R.
+    destruct (children_loop H s1' path (nr_hash r) (nr_cb r) cl []) as [[s2 reqs] rc]. cbn [snd] in R.
+    destruct rc; try exact R; try (destruct R as [R|[R|[R|R]]]; discriminate R).
+    destruct (aget path (nreqs s2)) as [r2|]; [|right; left; reflexivity].
+    destruct (Nat.eqb (length reqs) 0 && Z.eqb (nr_deps r2) 0); [apply cnr_rc|].
+    destruct (schedule_all _ (rev reqs)); [left; reflexivity|right; left; reflexivity].
+  Qed.
+  Lemma process_code_soft s h data :
+    ~ hard (snd (process_code s h data)) -> fst (process_code s h data) = s.
+  Proof.
+    unfold process_code. destruct (aget h (creqs s)) as [c|]; [|reflexivity].
+    destruct (cr_data c); [reflexivity|]. intros Hn. exfalso. apply Hn. apply ccp_rc.
+  Qed.
 End Live.
+
+(* ---------- all histories; no deadlock ---------- *)
+From GV Require Import Trie.SyncInv Trie.SyncCallback Trie.SyncQueue.
+
+Lemma In_aget_nodup {V} k (v : V) m : NoDup (keys m) -> In (k, v) m -> aget k m = Some v.
+Proof.
+  induction m as [|[k0 v0] m IH]; intros Hn Hin; [destruct Hin|]. inversion Hn; subst. cbn [aget].
+  destruct Hin as [X|X].
+  - inversion X; subst. rewrite beq_refl. reflexivity.
+  - destruct (beq k k0) eqn:E; [|apply IH; assumption].
+    apply beq_eq in E. subst k0. exfalso. apply H1. unfold keys. apply in_map_iff. exists (k, v). auto.
+Qed.
+Lemma cntn_pos_ex p (m : amap nreq) : (0 < cntn p m)%nat -> exists k r, In (k, r) m /\ nr_parent r = Some p.
+Proof.
+  induction m as [|[k0 v0] m IH]; [unfold cntn; simpl; lia|]. rewrite cntn_cons.
+  destruct (is_par p v0) eqn:E.
+  - intros _. exists k0, v0. split; [left; reflexivity|]. unfold is_par in E.
+    destruct (nr_parent v0) as [q|]; [|discriminate]. apply beq_eq in E. subst. reflexivity.
+  - intros Hp. destruct IH as (k & r & A & B); [lia|]. exists k, r. split; [right; exact A|exact B].
+Qed.
+Lemma max_len_ex {V} (m : amap V) : m <> [] ->
+  exists k v, In (k, v) m /\ forall k' v', In (k', v') m -> (length k' <= length k)%nat.
+Proof.
+  induction m as [|[k0 v0] m IH]; [congruence|]. intros _. destruct m as [|kv m'].
+  - exists k0, v0. split; [left; reflexivity|]. intros k' v' [X|[]]. inversion X; subst. lia.
+  - destruct IH as (k & v & A & B); [discriminate|].
+    destruct (le_lt_dec (length k0) (length k)).
+    + exists k, v. split; [right; exact A|]. intros k' v' [X|X]; [inversion X; subst; lia|eapply B; eauto].
+    + exists k0, v0. split; [left; reflexivity|]. intros k' v' [X|X]; [inversion X; subst; lia|].
+      specialize (B _ _ X). lia.
+Qed.
+
+Section NoDeadlock.
+  Variable H : list N -> list N.
+  Variable T CD : list N -> option (list N).
+  Variable root : list N.
+  Variable cb0 : cbkind.
+  Variable db0 : kv.
+  Notation RN := (RN H T root cb0).
+  Notation RC := (RC H T root cb0).
+  Hypothesis Hkind : forall p h cb p' cb', RN p h cb -> RN p' h cb' -> cb = cb'.
+  Hypothesis Hnz : forall p h cb, RN p h cb -> h <> zero32.
+  Hypothesis Hlen : forall p h cb, RN p h cb -> length h = 32%nat.
+  Hypothesis agree0 : forall k v, get k db0 = Some v ->
+    (forall b, RNh H T root cb0 k -> T k = Some b -> v = b) /\
+    (forall h c, k = code_key h -> RC h -> CD h = Some c -> v = c).
+  Notation InvA := (InvA H T CD root cb0 db0).
+
+  Definition InvL (s : sync) : Prop := InvA s /\ live None zero s.
+
+  (* deliveries: as run_wf4, and a code delivery passing the hash check is processed
+     without panic / dangling reference *)
+  Definition op_wf5 (s : sync) (o : op) : Prop :=
+    op_wf4 H T CD s o /\
+    match o with
+    | ODeliverCode h b => H b = h -> In (snd (process_code s h b)) [ROk; RNotRequested; RAlreadyProcessed]
+    | _ => True
+    end.
+  Fixpoint run_wf5 (s : sync) (ops : list op) : Prop :=
+    match ops with [] => True | o :: r => op_wf5 s o /\ run_wf5 (step H s o) r end.
+
+  Lemma InvL_step s o : op_wf5 s o -> InvL s -> InvL (step H s o).
+  Proof.
+    intros [W4 W5] [IA L]. split; [apply (InvA_step H T CD root cb0 db0 Hkind Hnz Hlen agree0); assumption|].
+    destruct IA as (I & SL & RT & SO).
+    destruct o as [k|p h b|h b|]; simpl in *.
+    - destruct (missing_go_reqs max_fetches_per_depth (queue s) k 0 s [] []) as [E1 E2].
+      unfold missing, missing_b. eapply live_same; eauto.
+    - destruct W4 as [W1 W2]. unfold deliver_node. destruct (beq (H b) h) eqn:E; [|exact L].
+      apply beq_eq in E. specialize (W2 E).
+      destruct (snd (process_node H s p b)) eqn:Ec.
+      + apply live_process_node; [exact L| |exact Ec].
+        intros r Hr. split.
+        * specialize (SL p r Hr). unfold zero in SL. lia.
+        * destruct (RT p r Hr) as [R _]. eapply Hnz; eauto.
+      + rewrite process_node_soft; [exact L|]. rewrite Ec. intros [X|[X|[X|X]]]; discriminate X.
+      + rewrite process_node_soft; [exact L|]. rewrite Ec. intros [X|[X|[X|X]]]; discriminate X.
+      + rewrite process_node_soft; [exact L|]. rewrite Ec. intros [X|[X|[X|X]]]; discriminate X.
+      + exfalso. simpl in W2. destruct W2 as [X|[X|[X|[X|[]]]]]; discriminate X.
+      + exfalso. simpl in W2. destruct W2 as [X|[X|[X|[X|[]]]]]; discriminate X.
+      + exfalso. simpl in W2. destruct W2 as [X|[X|[X|[X|[]]]]]; discriminate X.
+      + exfalso. simpl in W2. destruct W2 as [X|[X|[X|[X|[]]]]]; discriminate X.
+    - unfold deliver_code. destruct (beq (H b) h) eqn:E; [|exact L].
+      apply beq_eq in E. specialize (W5 E).
+      destruct (snd (process_code s h b)) eqn:Ec.
+      + apply live_process_code; assumption.
+      + rewrite process_code_soft; [exact L|]. rewrite Ec. intros [X|[X|[X|X]]]; discriminate X.
+      + rewrite process_code_soft; [exact L|]. rewrite Ec. intros [X|[X|[X|X]]]; discriminate X.
+      + exfalso. simpl in W5. destruct W5 as [X|[X|[X|[]]]]; discriminate X.
+      + exfalso. simpl in W5. destruct W5 as [X|[X|[X|[]]]]; discriminate X.
+      + exfalso. simpl in W5. destruct W5 as [X|[X|[X|[]]]]; discriminate X.
+      + exfalso. simpl in W5. destruct W5 as [X|[X|[X|[]]]]; discriminate X.
+      + exfalso. simpl in W5. destruct W5 as [X|[X|[X|[]]]]; discriminate X.
+    - destruct (commit s) as [s'|] eqn:E; [|exact L].
+      unfold commit in E. destruct (apply_ops _ _ _); [|discriminate]. inversion E; subst.
+      eapply live_same; [| |exact L]; reflexivity.
+  Qed.
+
+  Lemma InvL_run : forall ops s, run_wf5 s ops -> InvL s -> InvL (run H s ops).
+  Proof.
+    induction ops as [|o r IH]; intros s W I; simpl; [exact I|].
+    destruct W as [W1 W2]. apply IH; [exact W2|]. apply InvL_step; assumption.
+  Qed.
+
+  Lemma live_sched_root e f s cp r :
+    live e f s -> aget cp (nreqs s) = None -> nr_data r = None -> nr_deps r = 0%Z -> nr_parent r = None ->
+    live e f (schedule_node s cp r).
+  Proof.
+    intros [NN NC UB LE PO] Hf Hd Hz Hp. unfold schedule_node. constructor; ssimpl.
+    - apply nodup_aput. exact NN.
+    - exact NC.
+    - intros q x. rewrite aget_aput, (cntn_aput_fresh q cp r (nreqs s) Hf). unfold is_par. rewrite Hp.
+      destruct (beq q cp); [intros X; inversion X; subst x; rewrite Hz; lia|]. intros X. specialize (UB q x X). lia.
+    - intros k1 rc q Hin Hq. apply In_aput in Hin. destruct Hin as [X|[X _]]; [inversion X; subst; congruence|eapply LE; eauto].
+    - intros q x d Hne. rewrite aget_aput. destruct (beq q cp); [intros X D; inversion X; subst x; congruence|].
+      intros X D. eapply PO; eauto.
+  Qed.
+
+  Lemma live_new_sync : live None zero (unsum (new_sync H false db0 root cb0)).
+  Proof.
+    set (e0 := mkSync false db0 [] [] 0 [] [] [] []).
+    assert (E0 : live None zero e0).
+    { constructor; unfold e0; ssimpl; try constructor; intros; try discriminate. destruct H0. }
+    unfold new_sync. fold e0. unfold add_sub_trie. destruct (beq root (empty_root H)); [exact E0|].
+    change (resolve_path []) with (Some (zero32, @nil N)). cbv iota beta.
+    destruct (has_node H e0 zero32 [] root) as [ex inc]. destruct ex; [exact E0|].
+    set (s1 := if inc then mb_del_node e0 zero32 [] else e0).
+    assert (N1 : nreqs s1 = [] /\ creqs s1 = []) by (unfold s1; destruct inc; split; reflexivity).
+    destruct N1 as [N1 C1].
+    assert (L1 : live None zero s1) by (eapply live_same; [| |exact E0]; [rewrite N1|rewrite C1]; reflexivity).
+    rewrite N1. cbn [aget]. rewrite beq_refl. cbn [negb unsum].
+    apply live_sched_root; auto. rewrite N1. reflexivity.
+  Qed.
+
+  (* NO DEADLOCK: while something is pending, some node request is undelivered or some
+     code request exists *)
+  Theorem no_deadlock s :
+    live None zero s -> pending s <> O ->
+    (exists p r, aget p (nreqs s) = Some r /\ nr_data r = None) \/ creqs s <> [].
+  Proof.
+    intros [NN NC UB LE PO] Hp.
+    destruct (creqs s) as [|c0 cr] eqn:Ec; [|right; discriminate]. left.
+    destruct (find (fun kr => match nr_data (snd kr) with None => true | Some _ => false end) (nreqs s)) as [[k r]|] eqn:Ef.
+    - apply find_some in Ef. destruct Ef as [Hin Hd]. simpl in Hd. exists k, r.
+      split; [apply In_aget_nodup; assumption|destruct (nr_data r); [discriminate|reflexivity]].
+    - exfalso.
+      assert (Hne : nreqs s <> []).
+      { intros E. unfold pending in Hp. rewrite E, Ec in Hp. apply Hp. reflexivity. }
+      destruct (max_len_ex (nreqs s) Hne) as (k & r & Hin & Hmax).
+      pose proof (find_none _ _ Ef (k, r) Hin) as Hd. simpl in Hd.
+      destruct (nr_data r) as [d|] eqn:Dd; [|discriminate].
+      pose proof (In_aget_nodup k r (nreqs s) NN Hin) as Ek.
+      pose proof (PO k r d ltac:(discriminate) Ek Dd) as Pos.
+      pose proof (UB k r Ek) as U. rewrite ?Ec in U. cbn [cntc] in U. unfold zero in U.
+      destruct (cntn_pos_ex k (nreqs s)) as (k' & r' & Hin' & Hp'); [lia|].
+      pose proof (LE k' r' k Hin' Hp'). specialize (Hmax _ _ Hin'). lia.
+  Qed.
+
+  Definition emb (o : op) : op3 :=
+    match o with
+    | OMissing k => O3Missing max_fetches_per_depth k
+    | ODeliverNode p h b => O3Node p h b
+    | ODeliverCode h b => O3Code h b
+    | OCommit => O3Commit
+    end.
+  Lemma run3_emb : forall ops s fl, fst (run3 H (s, fl) (map emb ops)) = run H s ops.
+  Proof.
+    induction ops as [|o r IH]; intros s fl; [reflexivity|]. simpl.
+    destruct o as [k|p h b|h b|]; cbn [emb step3 step].
+    - unfold missing. destruct (missing_b max_fetches_per_depth s k) as [[s1 ns] cs]. apply IH.
+    - apply IH.
+    - apply IH.
+    - apply IH.
+  Qed.
+
+  (* LIVENESS (no deadlock + nothing lost): after any history from NewSync, as long as
+     Pending() > 0 there is an undelivered node request or a code request that is in the
+     priority queue or was handed out by a Missing call *)
+  Theorem sync_never_stuck ops :
+    closedA H T root cb0 db0 ->
+    let s0 := unsum (new_sync H false db0 root cb0) in
+    run_wf5 s0 ops ->
+    let st := run3 H (s0, []) (map emb ops) in
+    pending (fst st) <> O ->
+    (exists p r, aget p (nreqs (fst st)) = Some r /\ nr_data r = None /\
+                 (In (QNode p) (items (queue (fst st))) \/ In (QNode p) (snd st))) \/
+    (exists h c, aget h (creqs (fst st)) = Some c /\
+                 (In (QCode h) (items (queue (fst st))) \/ In (QCode h) (snd st))).
+  Proof.
+    intros C0 s0 W st Hp.
+    assert (IL : InvL (fst st)).
+    { unfold st. rewrite run3_emb. apply InvL_run; [exact W|].
+      split; [apply (InvA_new_sync H T CD root cb0 db0 Hkind Hnz Hlen agree0); exact C0|apply live_new_sync]. }
+    pose proof (qinv_run3 H (map emb ops) (s0, []) (qinv_new_sync H false db0 root cb0)) as [Q1 Q2].
+    fold st in Q1, Q2.
+    destruct (no_deadlock (fst st) (proj2 IL) Hp) as [(p & r & E & D)|Hc].
+    - left. exists p, r. split; [exact E|split; [exact D|]]. exact (Q1 p r E D).
+    - right. destruct (creqs (fst st)) as [|[h c] rest] eqn:Ec; [contradiction Hc; reflexivity|].
+      exists h, c. split; [|apply (Q2 h c)]; cbn [aget]; rewrite beq_refl; reflexivity.
+  Qed.
+End NoDeadlock.
